@@ -92,6 +92,7 @@ EncHead == "=?utf-8?q?caf=C3=A9_"
 DecodeAlt(name) == IF StartsWith(name, EncHead) /\ EndsWith(name, "?=") /\ Len(name) = Len(EncHead) + 3
                    THEN "caf# " \o Ch(name, Len(EncHead) + 1) ELSE name
 NameAlts(m) == {NameOf(Parse(m)), DecodeAlt(NameOf(Parse(m)))}
+NameFits(name, m) == \E a \in NameAlts(m) : SameName(name, a)
 \* design level: the order the code (as coded, or repaired) puts a Maildir in
 DesignOrders(n, place, ord) == {CodedOrder(n, place, ord), Idx(n)}
 =============================================================================
